@@ -23,9 +23,12 @@ def defects():
 
 def seeded():
     out = ["| seeded change | property | what it breaks / what it needs | checks run → result | note |", "|---|---|---|---|---|"]
+    notes = json.load(open(f"{ROOT}/seeded/NOTES.json")) if os.path.exists(f"{ROOT}/seeded/NOTES.json") else {}
     for m in sorted(glob.glob(f"{ROOT}/seeded/*/meta.json")):
         d = json.load(open(m))
         sid = os.path.basename(os.path.dirname(m))
+        if sid in notes:
+            d["note"] = notes[sid]
         checks = "; ".join(f"{k}: {v}" for k, v in sorted(d.get("checks", {}).items()))
         esc = lambda s: str(s).replace("|", "\\|").replace("\n", " ")
         out.append(f'| `{sid}` | {d.get("property")} | {esc(d.get("title",""))} — needs: {esc(d.get("needs_to_manifest",""))[:400]} | {checks} | {esc(d.get("note",""))} |')
